@@ -409,8 +409,12 @@ func (V *Verifier) checkProperty(prop string, verbose bool, t0 time.Time) int {
 		"bounded_standins":         []string{},
 	}
 	ev := Evidence{PropertyID: prop, Tier: V.tier, Seed: V.seed, Level: level, Coverage: cov, Assumptions: assumptionsFor(prop), WallS: round2(time.Since(t0).Seconds()), Violations: violations}
-	os.MkdirAll("/verif/evidence", 0o755)
-	if err := jsonOut(filepath.Join("/verif/evidence", prop+".json"), ev); err != nil {
+	evDir := "/verif/evidence"
+	if d := os.Getenv("GOVC_EVIDENCE_DIR"); d != "" { // selftest runs on mutants must not overwrite the evidence of the real tree
+		evDir = d
+	}
+	os.MkdirAll(evDir, 0o755)
+	if err := jsonOut(filepath.Join(evDir, prop+".json"), ev); err != nil {
 		fmt.Fprintln(os.Stderr, "BROKEN: cannot write evidence:", err)
 		return 2
 	}
